@@ -1,4 +1,5 @@
 import BoxoModel.C32.Lemmas
+import BoxoModel.C32.Base32
 /-!
 # C32 — subdomain and DNSLink addressing preserve content identity
 
@@ -78,13 +79,13 @@ theorem c32_inline_chars (s l : Bytes) (h : inlineDNSLink s = some l) :
 
 /-- `rq` is a request a client (possibly through a reverse proxy that moves the public host into
 X-Forwarded-Host) sends when it follows the redirect to `u` -/
-def Follows (rq : Req) (u : URL) : Prop := effectiveHost rq = u.host ∧ rq.path = u.path
+def Follows (rq : Req) (u : URL) : Prop := effectiveHost rq = u.host ∧ rq.path = u.path ∧ rq.uri = .absent
 
 /-- the plain case: Host = Location host, no X-Forwarded-Host -/
 def follow (u : URL) : Req :=
   { host := u.host, path := u.path, rawQuery := u.rawQuery, fragment := [], https := u.https }
 
-theorem follows_follow (u : URL) : Follows (follow u) u := ⟨rfl, rfl⟩
+theorem follows_follow (u : URL) : Follows (follow u) u := ⟨rfl, rfl, rfl⟩
 
 /-- the configuration facts the round trip needs: `gwHost` is a known subdomain gateway, no proper
 label-suffix of it is a gateway of its own, the subdomain host itself is not configured as a
@@ -131,8 +132,40 @@ theorem c32_roundtrip_cid (env : Env) (cfg : Config) (gwHost ns id : Bytes) (res
     intro rq hf
     have := handle_subdomain_cid true env cfg gwHost ns L rq gw _ hf.1 hcfg.subdomainNotGateway hksd
       hcfg.useSubdomains hcfg.servesPath hdecL hlen (by intro hp; simp [hp])
-    rw [this, hf.2]
+    rw [handle_absent _ _ _ _ _ hf.2.2, this, hf.2.1]
   · exact ⟨_, hdecL, rfl, by intro hp; simp [hp]⟩
+
+/-- **Round trip for /ipfs and /ipld with the base32 codec proved, not assumed.** When the gateway's base32
+functions are the concrete ones (`enc32` / `decode32`: multibase `b`, RFC 4648 lower-case base32 of
+`varint 1 ++ varint codec ++ multihash`, proved inverse of each other with Lib/BaseN + Lib/Varint) on the label at
+hand and the label fits in 63 bytes, the conclusion of `c32_roundtrip_cid` holds without any hypothesis on the
+codec: the redirect goes to `<base32 CIDv1>.ns.gw` and comes back as `/ns/<base32 CIDv1>/rest` with the same
+multihash. (Base36 — /ipns, /p2p and over-long labels — stays a parameter.) -/
+theorem c32_roundtrip_cid_base32 (env : Env) (cfg : Config) (gwHost ns id : Bytes) (rest : Option Bytes) (r : Req)
+    (gw : GW) (c : Cid)
+    (hns : isSubdomainNamespace ns = true) (hnp : isPeerIDNamespace ns = false)
+    (h1 : 47 ∉ ns) (h2 : 47 ∉ id) (hdot : 46 ∉ ns)
+    (hd : env.codecs.decode id = some c) (hmh : ∀ b ∈ c.mh, b < 256)
+    (henc : env.codecs.enc false c.codec c.mh = enc32 c.codec c.mh)
+    (hdec : env.codecs.decode (enc32 c.codec c.mh) = decode32 (enc32 c.codec c.mh))
+    (hfit : (enc32 c.codec c.mh).length ≤ 63) (hu : env.urlHostOK (enc32 c.codec c.mh) = true)
+    (hcfg : Serves cfg gwHost gw ns (enc32 c.codec c.mh)) :
+    ∃ u, toSubdomainURL true env gwHost (47 :: (ns ++ 47 :: (id ++ tailOf rest))) r gw.inlineDNSLink = .to u ∧
+      u.host = enc32 c.codec c.mh ++ 46 :: (ns ++ 46 :: gwHost) ∧
+      u.path = locationPath (rest.getD []) ∧ u.rawQuery = r.rawQuery ∧ u.fragment = r.fragment ∧
+      (∀ rq, Follows rq u →
+        handle true true env cfg rq = .next ((47 :: ns ++ 47 :: enc32 c.codec c.mh) ++ u.path) (.subdomain gwHost)) ∧
+      env.codecs.decode (enc32 c.codec c.mh) = some ⟨1, c.codec, c.mh⟩ := by
+  have hdecL : env.codecs.decode (enc32 c.codec c.mh) = some ⟨1, c.codec, c.mh⟩ := by
+    rw [hdec]; exact decode32_enc32' c.codec c.mh hmh
+  have hnorm : normalizePeerID env ns id = id := by simp [normalizePeerID, hnp]
+  have hL : toDNSLabel (env.codecs.enc (isPeerIDNamespace ns) (if isPeerIDNamespace ns then libp2pKey else c.codec) c.mh)
+      (env.codecs.enc true (if isPeerIDNamespace ns then libp2pKey else c.codec) c.mh) = some (enc32 c.codec c.mh) := by
+    simp [hnp, henc, toDNSLabel, dnsLabelMaxLength, hfit]
+  obtain ⟨u, hu1, hu2, _, hu4, hu5, hu6, _, hu8, _⟩ :=
+    c32_roundtrip_cid env cfg gwHost ns id rest r gw c (enc32 c.codec c.mh) hns h1 h2 hdot
+      (by rw [hnorm]; exact hd) hL (by simpa [hnp] using hdecL) (enc32_no_dot c.codec c.mh).2.2 hu hcfg
+  exact ⟨u, hu1, hu2, hu4, hu5, hu6, hu8, hdecL⟩
 
 /-- **Round trip, DNSLink names (inlined).** A request `/ipns/name[/rest]` for a fully qualified name
 (contains a dot) with a DNSLink record, on a gateway that inlines (InlineDNSLink or an HTTPS request),
@@ -180,7 +213,7 @@ theorem c32_roundtrip_dnslink_inlined (env : Env) (cfg : Config) (gwHost name : 
   have hda : contains 45 (inlineRaw name) = true := contains_iff.mpr (dash_mem_inlineRaw name hfq)
   rw [uninline_inlineRaw name hsafe] at hh
   simp only [hnd, hda, hrec, Bool.not_false, Bool.and_self, ↓reduceIte] at hh
-  rw [hh, hf.2]
+  rw [handle_absent _ _ _ _ _ hf.2.2, hh, hf.2.1]
 
 /-- **Round trip, DNSLink names (not inlined).** When the name is kept as it is (no inlining on this
 gateway and plain HTTP, or no DNSLink record for it) the redirect goes to `name.ipns.gwHost` and the
@@ -220,7 +253,7 @@ theorem c32_roundtrip_dnslink_plain (env : Env) (cfg : Config) (gwHost name : By
   have hh := handle_subdomain_name true true env cfg gwHost name rq gw (by rw [hf.1]; simp)
     hcfg.subdomainNotGateway hksd hcfg.useSubdomains hcfg.servesPath hnc
   simp only [hc46, Bool.not_true, Bool.false_and, Bool.false_eq_true, ↓reduceIte] at hh
-  rw [hh, hf.2]
+  rw [handle_absent _ _ _ _ _ hf.2.2, hh, hf.2.1]
 
 /-- **The remainder.** The path a client sends after the redirect is `/rest`: exactly the tail of the
 original path when that tail is `/` or `/rest` with `rest` not starting with a slash (a bare `/ns/id`
@@ -264,6 +297,10 @@ theorem c32_dnslink_host_name (kf ch : Bool) (env : Env) (cfg : Config) (r : Req
     (hn : handle kf ch env cfg r = .next p (.dnslink h)) :
     h = effectiveHost r ∧ env.hasDNSLink h = true ∧ p = ipnsSlash ++ stripPort h ++ r.path := by
   unfold handle at hn
+  split at hn
+  · cases hn
+  · split at hn <;> cases hn
+  unfold handleHost at hn
   simp only [] at hn
   repeat' split at hn
   all_goals first
@@ -271,6 +308,73 @@ theorem c32_dnslink_host_name (kf ch : Bool) (env : Env) (cfg : Config) (r : Req
     | (simp only [Out.next.injEq, Ctx.dnslink.injEq] at hn; obtain ⟨rfl, rfl⟩ := hn; simp_all; done)
     | (subst hn; rename_i hq; exact absurd hq (redir_opt_not_next _ _ _ _))
     | (cases hn; simp_all; done)
+
+/-- **A subdomain host is served under the id it carries.** Whenever a request is handed to the next handler in
+subdomain mode, the host was `<rootID>.<ns>.<gateway>` for a known gateway, and if `rootID` is a CID (in ANY
+spelling: CIDv0 `Qm…`, other bases — there is no canonical redirect when the label already fits in 63 bytes and
+the Host header starts with it) the content path is `/ns/rootID/<request path>`: literally the same CID string,
+hence the same content. (Origin isolation / case-folding of such hosts by browsers is not part of this property.) -/
+theorem c32_subdomain_host_identity (kf ch : Bool) (env : Env) (cfg : Config) (r : Req) (p g : Bytes)
+    (hn : handle kf ch env cfg r = .next p (.subdomain g)) :
+    ∃ gw ns rootID, knownSubdomainDetails cfg (effectiveHost r) = some (gw, g, ns, rootID) ∧
+      (∀ c, env.codecs.decode rootID = some c → p = (47 :: ns ++ 47 :: rootID) ++ r.path) := by
+  unfold handle at hn
+  split at hn
+  · cases hn
+  · split at hn <;> cases hn
+  unfold handleHost at hn
+  simp only [] at hn
+  cases hk : isKnownHostname cfg (effectiveHost r) with
+  | some gw =>
+    simp only [hk] at hn
+    repeat' split at hn
+    all_goals cases hn
+  | none =>
+    simp only [hk] at hn
+    cases hs : knownSubdomainDetails cfg (effectiveHost r) with
+    | none =>
+      simp only [hs] at hn
+      split at hn <;> cases hn
+    | some x =>
+      obtain ⟨gw, gwHost, ns, rootID⟩ := x
+      simp only [hs] at hn
+      split at hn
+      · cases hn
+      · cases hd : env.codecs.decode rootID with
+        | none =>
+          simp only [hd] at hn
+          simp only [Out.next.injEq, Ctx.subdomain.injEq] at hn
+          obtain ⟨_, rfl⟩ := hn
+          exact ⟨gw, ns, rootID, rfl, by intro c hc; rw [hd] at hc; cases hc⟩
+        | some c =>
+          simp only [hd] at hn
+          split at hn
+          · cases hn
+          · rcases opt_out_next_eq hn with h1 | ⟨_, h2⟩
+            · exact absurd h1 (redir_opt_not_next _ _ _ _)
+            · rcases opt_out_next_eq h2 with h3 | ⟨_, h4⟩
+              · exact absurd h3 (redir_opt_not_next _ _ _ _)
+              · simp only [Out.next.injEq, Ctx.subdomain.injEq] at h4
+                obtain ⟨rfl, rfl⟩ := h4
+                exact ⟨gw, ns, rootID, rfl, by intro c' _; rfl⟩
+
+/-- **`?uri=` (registerProtocolHandler) redirect.** A request that carries a `uri` query parameter is answered
+before any host logic: 400 when the value does not parse or its scheme is not ipfs / ipns, else 301 to the path
+`gopath.Join("/", scheme, host, escaped path[?query])` (a parameter: the harness checks it is
+`/<scheme>/<host><path>` for clean inputs). -/
+theorem c32_uri_redirect (kf ch : Bool) (env : Env) (cfg : Config) (r : Req) :
+    (r.uri = .unparsable → handle kf ch env cfg r = .badRequest) ∧
+    (∀ scheme joined, r.uri = .parsed scheme joined →
+      handle kf ch env cfg r = if scheme = IPFSscheme ∨ scheme = IPNSscheme then .redirectPath joined else .badRequest) := by
+  constructor
+  · intro h; unfold handle; rw [h]
+  · intro scheme joined h
+    unfold handle; rw [h]
+    by_cases h1 : scheme = IPFSscheme
+    · simp [h1]
+    · by_cases h2 : scheme = IPNSscheme
+      · simp [h2]
+      · simp [h1, h2]
 
 /-! ## non-vacuity: a concrete gateway, a toy codec table, and the two steps evaluated -/
 
